@@ -412,3 +412,86 @@ def keys_duplicate(k0, k1, w0, w1, v0, v1, form):
     if not same_rows(got, want.rows):
         return 'duplicate-grouping-key'
     return 'ok'
+
+
+# ---------------------------------------------------------------------------
+# C02.query.objects: the folds over amount / position / inventory operands are pure
+
+import functools
+
+
+@functools.lru_cache(maxsize=None)
+def _object_palettes():
+    import datetime
+    from beancount.core import amount, inventory, position
+    A = amount.Amount
+    lot = position.Cost(D('100.00'), 'USD', datetime.date(2019, 1, 5), None)
+
+    def inv(*positions):
+        out = inventory.Inventory()
+        for units, cost in positions:
+            out.add_amount(units, cost)
+        return out
+    return {
+        'inventory': (inventory.Inventory, [None, inv(), inv((A(D('10.00'), 'USD'), None)),
+                                            inv((A(D('2'), 'HOOL'), lot), (A(D('5.00'), 'EUR'), None)),
+                                            inv((A(D('-10.00'), 'USD'), None))]),
+        'position': (position.Position, [None, position.Position(A(D('10.00'), 'USD'), None),
+                                         position.Position(A(D('2'), 'HOOL'), lot), position.Position(A(D('-1'), 'HOOL'), lot)]),
+        'amount': (amount.Amount, [None, A(D('1.50'), 'USD'), A(D('0.00'), 'USD'), A(D('2.00'), 'EUR')]),
+    }
+
+
+def _objects_run(kind, picks, keys):
+    import copy
+    from beancount.core import inventory
+    dtype, palette = _object_palettes()[kind]
+    values = [copy.deepcopy(palette[i]) for i in picks]
+    before = copy.deepcopy(values)
+    rows = [(k, v) for k, v in zip(keys, values)]
+    columns = [('k', int), ('v', dtype)]
+    conn = connect(t=HTable('t', columns, rows))
+    text = ('SELECT k, sum(v) AS s1, first(v) AS f, last(v) AS l, sum(v) AS s2, count(v) AS c, count(*) AS n '
+            'FROM #t GROUP BY k')
+    results = []
+    for _ in range(2):                                    # executed twice over the same table object
+        cur = conn.execute(parse(text))
+        results.append(cur.fetchall())
+    want = []
+    for key in dict.fromkeys(keys):
+        group = [v for k, v in zip(keys, before) if k == key]
+        total = inventory.Inventory()
+        for v in group:
+            if v is None:
+                continue
+            if kind == 'inventory':
+                total.add_inventory(v)
+            elif kind == 'position':
+                total.add_position(v)
+            else:
+                total.add_amount(v)
+        nonnull = [v for v in group if v is not None]
+        want.append((key, total, nonnull[0] if nonnull else None, group[-1], total, len(nonnull), len(group)))
+    if results[0] != want:
+        return 'fold-over-' + kind
+    if results[1] != want:
+        return 'second-execution-differs'
+    if values != before:
+        return 'source-values-mutated'
+    return 'ok'
+
+
+@cond('C02.query.objects', quick=240, thorough=600,
+      bounds='3 rows (k: first 0, others in {0,1}; v of type amount / position / inventory picked from a palette of 4-5 values incl. '
+             'NULL, an empty inventory, lots at cost, a zero amount); SELECT k, sum(v), first(v), last(v), sum(v), count(v), '
+             'count(*) GROUP BY k executed twice over the same table object: each aggregate is the fold of its group, two '
+             'aggregates over the same column do not share state, the source values are left untouched',
+      symbolic='(none)', enumerated='operand type, the three values, the keys',
+      params={'kind': int, 'p0': int, 'p1': int, 'p2': int, 'k1': bool, 'k2': bool},
+      note='solver-enumerated and executed natively: Beancount inventories are C-level Decimal containers (R3)')
+def query_objects(kind, p0, p1, p2, k1, k2):
+    kind = pick(['inventory', 'position', 'amount'], kind)
+    n = 5 if kind == 'inventory' else 4
+    picks = [enum_int(p0, 0, n - 1), enum_int(p1, 0, n - 1), enum_int(p2, 0, n - 1)]
+    keys = [0, 1 if k1 else 0, 1 if k2 else 0]
+    return native(_objects_run, kind, picks, keys)
